@@ -141,7 +141,7 @@ def map_order(run,m):
         idx.sort(key=functools.cmp_to_key(lambda i,j: val_cmp(run,m.e[i][0],m.e[j][0])))
         return idx
     if n<=1: return list(range(n))
-    mode=run.eng.hash_order
+    mode=getattr(run,'hash_order',None) or run.eng.hash_order
     if mode=='fixed': return list(range(n))
     if mode=='rot':
         orders=[list(range(r,n))+list(range(r)) for r in range(n)]
@@ -1625,3 +1625,18 @@ def register_misc(E):
 _old_register_all5=register_all
 def register_all(E):
     _old_register_all5(E); register_misc(E)
+def m_iter_min_max_by(which):
+    def m(e,run,a,f):
+        xs=drain(e,run,to_iter(e,run,a[0]))
+        if not xs: return none()
+        best=xs[0]
+        for x in xs[1:]:
+            c=_cmp_from_ordering(e.call_value(run,a[1],[Ref(Cell(x)),Ref(Cell(best))]))
+            if (which=='min' and c<0) or (which=='max' and c>=0): best=x
+        return some(best)
+    return m
+def register_misc2(E):
+    E.model(r' as Iterator>::min_by$',m_iter_min_max_by('min')); E.model(r' as Iterator>::max_by$',m_iter_min_max_by('max'))
+_old_register_all6=register_all
+def register_all(E):
+    _old_register_all6(E); register_misc2(E)
